@@ -35,7 +35,7 @@ struct Value *_ZNK4bloc19MemberSETExpression5valueERNS_7ContextE(struct MemberSE
 __CPROVER_requires(IS_FRESH(this, sizeof(*this)) && IS_FRESH(ctx, sizeof(*ctx)) && IS_FRESH(this->_base_MemberExpression._exp, sizeof(struct Expression)))
 __CPROVER_requires(INPUT_STATE(g_nargs, VALUE_FIELDS(&g_tab_elem), g_decl_len, g_decl_item._major, g_decl_item._minor, g_decl_item._level))
 /* node invariant: the only constructor passes BTM_SET to MemberExpression */
-__CPROVER_requires(this->_base_MemberExpression._builtin < 16)
+__CPROVER_requires(this->_base_MemberExpression._builtin == 7)   /* BTM_SET */
 __CPROVER_requires(g_nargs == 1 && ARGS_PINNED && __exc == 0 && g_eval_n == 0 && __caught_n == 0 && GLOBALS_PINNED)
 /* tuple invariant (Tuple::Tuple): as many items as declared types, each item of its declared type; items are scalars, never pointers */
 __CPROVER_requires(VALID_TAG(ITEM) && ITEM_AS_DECLARED && g_decl_item._level == 0 && g_decl_item._major <= IMAGINARY && g_decl_item._major != POINTER && g_decl_item._major != NO_TYPE && g_decl_item._major != ROWTYPE && g_decl_len <= 0xfffffffful)
